@@ -83,6 +83,35 @@ STRESS = [
 ]
 
 
+WIDE_TEMPLATES = [
+    # arrays of W items whose source becomes garbage while items are still held by a builtin's in-flight state
+    "std.sum(std.flatMap(function(x) local r = std.range(x, x + W); r, std.range(1, 40)))",
+    "std.length(std.flatMap(function(x) {a: std.makeArray(W, function(i) [i, x])}.a, std.range(1, 25)))",
+    "std.sum(std.map(function(x) std.length(std.filter(function(y) y % 2 == 0, {a: std.range(x, x + W)}.a)), std.range(1, 25)))",
+    "local rows = [{a: std.range(x, x + W)} for x in std.range(1, 25)]; std.sum([std.sum(std.reverse(r.a)) for r in rows])",
+    "std.sum(std.foldl(function(acc, x) {a: acc + [x]}.a, std.range(1, W + 3), []))",
+    "std.length(std.join([0], [{a: std.range(1, W)}.a for x in std.range(1, 20)]))",
+    "std.sum(std.sort({a: std.map(function(i) (i * 37) % 101, std.range(0, W))}.a))",
+    "std.sum([x[W - 1] for x in [std.makeArray(W, function(i) i + j) for j in std.range(1, 25)]])",
+    "std.sum(std.flatMap(function(x) std.set({a: std.range(x, x + W)}.a)[0:W:2], std.range(1, 20)))",
+    "std.sum(std.filterMap(function(x) x % 3 != 0, function(x) x * 2, {a: std.range(1, W * 2)}.a))",
+    "local big = {a: [{v: i} for i in std.range(0, W)]}; std.sum([o.v for o in big.a + big.a])",
+    "std.length(std.manifestJsonEx({a: [[i, [i]] for i in std.range(0, W)]}.a, ' '))",
+    "local f(a) = std.length(a); std.sum([f({a: std.range(0, W + i)}.a[i:]) for i in std.range(0, 12)])",
+    "std.sum(std.mapWithIndex(function(i, x) i + x, {a: std.range(0, W)}.a))",
+    "std.length(std.format('%s', [{a: std.range(0, W)}.a]))",
+]
+WIDTHS = [31, 32, 33, 34, 63, 64, 65, 66, 96, 97, 128, 129, 130, 257]
+
+
+def wide_programs(rng, k):
+    out = []
+    for _ in range(k):
+        w = rng.choice(WIDTHS)
+        out.append(("wide", rng.choice(WIDE_TEMPLATES).replace("W", str(w)).encode()))
+    return out
+
+
 def record_key(recs):
     """The complete observable outcome of a script, excluding counters that legitimately differ."""
     out = []
@@ -102,6 +131,7 @@ def schedule_shard(args):
         if use_stress:
             for s in STRESS:
                 programs.append(("stress", s.encode()))
+        programs.extend(wide_programs(rng, max(2, n // 6)))
         while len(programs) < n:
             fam, data = genbytes.gen_input(rng)
             programs.append((fam, data))
@@ -289,7 +319,7 @@ def gcheap_shard(args):
         script = first.split(" | script=")[1] if " | script=" in first else ""
         agg.violation({"kind": "scripted_heap_disagrees_with_model", "what": what},
                       {"first": first[:600], "violations": int(d["violations"]), "run": argv},
-                      {"gcheap": ["replay", script]})
+                      {"gcheap": ["replay", script] + [a for a in argv if a.startswith("salt=")]})
     else:
         agg.sample({"gcheap": " ".join(argv), "sequences": int(d["seqs"]), "collections": int(d["gcs"]),
                     "objects_reclaimed": int(d["freed"]), "distinct_heap_shapes_at_gc": int(d["distinct_heap_shapes_at_gc"])})
@@ -339,14 +369,18 @@ def run(tier, seed):
     # leg 3: scripted heap
     shards = []
     if quick:
-        shards += [["exhaustive", "3", "4", "6", str(i), "8"] for i in range(8)]
-        shards += [["exhaustive", "4", "5", "5", str(i), "4"] for i in range(4)]
-        shards += [["random", str(seed * 1000 + i), "6000", str(rng_nodes), "300"] for i, rng_nodes in enumerate([3, 5, 8, 16])]
+        shards += [["exhaustive", "3", "4", "6", str(i), "8", "salt=%d" % ((seed + i) % 4)] for i in range(8)]
+        shards += [["exhaustive", "4", "5", "5", str(i), "4", "salt=%d" % i] for i in range(4)]
+        shards += [["exhaustive", "3", "4", "5", "0", "1", "salt=%d" % i] for i in range(4)]
+        shards += [["random", str(seed * 1000 + i), "6000", str(rng_nodes), "300", "salt=%d" % i] for i, rng_nodes in enumerate([3, 5, 8, 16])]
+        shards += [["random", str(seed * 1000 + 50 + i), "1500", str([3, 6, 10, 16][i]), "200", "salt=%d" % i, "burst=12"] for i in range(4)]
     else:
-        shards += [["exhaustive", "3", "4", "7", str(i), "32"] for i in range(32)]
-        shards += [["exhaustive", "4", "5", "6", str(i), "16"] for i in range(16)]
-        shards += [["exhaustive", "2", "6", "7", str(i), "8"] for i in range(8)]
-        shards += [["random", str(seed * 1000 + i), "400000", str([3, 4, 5, 8, 12, 16, 24, 32][i % 8]), "300"] for i in range(32)]
+        shards += [["exhaustive", "3", "4", "7", str(i), "32", "salt=%d" % ((seed + i) % 4)] for i in range(32)]
+        shards += [["exhaustive", "3", "4", "6", "0", "1", "salt=%d" % i] for i in range(4)]
+        shards += [["exhaustive", "4", "5", "6", str(i), "16", "salt=%d" % (i % 4)] for i in range(16)]
+        shards += [["exhaustive", "2", "6", "7", str(i), "8", "salt=%d" % (i % 4)] for i in range(8)]
+        shards += [["random", str(seed * 1000 + i), "400000", str([3, 4, 5, 8, 12, 16, 24, 32][i % 8]), "300", "salt=%d" % (i // 8)] for i in range(32)]
+        shards += [["random", str(seed * 1000 + 500 + i), "60000", str([3, 5, 8, 12, 16, 24, 32, 6][i % 8]), "200", "salt=%d" % (i % 4), "burst=12"] for i in range(16)]
     for a in common.pmap(gcheap_shard, shards):
         total.merge(a)
     # leg 1: schedule independence
@@ -364,9 +398,12 @@ def run(tier, seed):
     rule = ("(1) scripted heaps through the verif_gc facade against a reachability model: every op sequence up to a "
             "length bound over <= 3-4 nodes / <= 4-6 external handles (alloc, alloc_view, clone, view_of, weak_of, "
             "add/del edge, drop, gc; an implicit final collection, then all handles dropped and a last collection) + "
-            "random histories up to 32 nodes / 300 ops: reclaimed set == unreachable set from the freed-event log, "
+            "random histories up to 32 nodes / 300 ops, a share of them with bursts of 20-70 edges from one node (wide nodes); "
+            "each node keeps its edges in one of four containers (Vec, boxed slice, Option + Vec, OnceCell + boxed slice; "
+            "assignment rotated by salt) so that every container tracer of the collector is driven: reclaimed set == unreachable set from the freed-event log, "
             "nothing destroyed outside a collection, flags reset, every held handle and edge still viewable; "
-            "(2) every program (heap-stress templates, ui-tests corpus and its mutants) under never/default/"
+            "(2) every program (heap-stress templates, wide-array templates at widths 31..257 whose source array becomes garbage "
+            "while a builtin still holds its items, ui-tests corpus and its mutants) under never/default/"
             "every:1,2,3,7 and 4 random schedules in identical program states: complete outcome records (value walk, "
             "error debug incl. resolved spans, stack-trace hash, trace messages) must be equal; (3) a long-lived "
             "Program returns to its baseline object count after each round of load/eval/manifest + drop + gc. "
